@@ -52,9 +52,15 @@ def pformat(obj, indent=0, depth=3):
         np.set_printoptions(precision=6, threshold=64, edgeitems=1)
     else:
         print_options = None
-    out = pprint.pformat(obj, depth=depth, indent=indent)
-    if print_options:
-        np.set_printoptions(**print_options)
+    try:
+        out = pprint.pformat(obj, depth=depth, indent=indent)
+    except Exception:
+        # pprint sorts the items of dicts and sets: some comparisons raise
+        # other exceptions than the TypeError it copes with (decimal NaN).
+        out = repr(obj)
+    finally:
+        if print_options:
+            np.set_printoptions(**print_options)
     return out
 
 
